@@ -313,7 +313,7 @@ func ruleErrDrop(c *Ctx) []Obligation {
 					o := ok(R, con, c.InstrPos(call), "error result is consumed")
 					o.Trivial = true
 					obs = append(obs, o)
-				} else if why, okj := errDropJustified[key]; okj {
+				} else if why, okj := jget("errDropJustified", errDropJustified, key); okj {
 					obs = append(obs, just(R, con, c.InstrPos(call), why))
 				} else {
 					obs = append(obs, bad(R, con, c.InstrPos(call), "the error result is discarded"))
